@@ -100,6 +100,12 @@ def mutate(text: str, ext: str, faults: list[str], rng: random.Random, big: int)
             n = big * 2
             expr = " + ".join(str(i % 7) for i in range(n))
             text += ("\ntotal = " + expr + "\n") if ext == "py" else ("\nconst total = " + expr + ";\n" if ext != "rs" else "\nfn total() -> i32 { " + expr + " }\n")
+        elif op == "hugeHex":
+            lit = "0x" + "f" * 5000
+            text += {"py": f"\nLIMIT = {lit}\n\n\ndef scaled(x):\n    return x * {lit}\n",
+                     "rs": f"\nfn scaled(x: u128) -> u128 {{\n    x * {lit}\n}}\n"}.get(
+                ext, f"\nconst LIMIT = {lit};\nfunction scaled(x) {{\n  return x * {lit};\n}}\n") if ext else \
+                f"\nLIMIT = {lit}\n\n\ndef scaled(x):\n    return x * {lit}\n"
         elif op == "manyLines":
             text += "\n" * (big * 20)
         elif op == "empty":
@@ -273,7 +279,7 @@ def run(chk) -> None:
     quick = chk.tier == "quick"
     chk.level = "fault_enumeration"
     drive.preload()
-    chk.rule = ("fault sequences (33 operations: truncation, token deletion/duplication, bracket/quote imbalance, "
+    chk.rule = ("fault sequences (34 operations: truncation, token deletion/duplication, bracket/quote imbalance, "
                 "encoding damage, nesting/length blow-up, empty/binary/unknown type) of length <= MaxFaults over "
                 "seed files of 4 languages plus an extensionless shebang script, enumerated by TLC from Robust.tla; concrete positions/bytes drawn from "
                 "VERIF_SEED; each damaged file linted among 10 healthy siblings through Linter.lint (all rules, H1 "
